@@ -443,7 +443,10 @@ func (s *CoAServer) sendResponse(code, identifier uint8, requestAuth []byte, err
 		attrs = append(attrs, errorAttr...)
 	}
 
-	// Add Reply-Message if present
+	// Add Reply-Message if present (an attribute value holds at most 253 octets)
+	if len(message) > 253 {
+		message = message[:253]
+	}
 	if message != "" {
 		msgAttr := make([]byte, 2+len(message))
 		msgAttr[0] = 18 // Reply-Message attribute type
